@@ -710,7 +710,14 @@ impl<'a> TypeHumanizer<'a> {
                     self.write_type(field.1, w)?;
                 }
                 LuaMemberKey::Name(s) => {
-                    w.write_str(s)?;
+                    if is_bare_field_name(s) {
+                        w.write_str(s)?;
+                    } else {
+                        // not a name: written the way it is declared, `["some key"]`
+                        w.write_str("[\"")?;
+                        write_hover_escape_string(s, w)?;
+                        w.write_str("\"]")?;
+                    }
                     w.write_str(": ")?;
                     self.write_type(field.1, w)?;
                 }
@@ -1220,6 +1227,13 @@ impl<'a> TypeHumanizer<'a> {
 
 // ─── Free helper functions ──────────────────────────────────────────────────
 
+/// Can an object field key be written without brackets and quotes?
+fn is_bare_field_name(name: &str) -> bool {
+    let mut chars = name.chars();
+    matches!(chars.next(), Some(ch) if ch.is_alphabetic() || ch == '_')
+        && chars.all(|ch| ch.is_alphanumeric() || ch == '_')
+}
+
 /// Write an escaped version of `s` directly into `w`.
 fn write_hover_escape_string<W: Write>(s: &str, w: &mut W) -> fmt::Result {
     for ch in s.chars() {
@@ -1329,6 +1343,15 @@ mod tests {
         let ty = ws.ty("(-1)[]");
         let rendered = ws.humanize_type_detailed(ty.clone());
         assert_eq!(rendered, "(-1)[]");
+        assert_eq!(ws.ty(&rendered), ty);
+    }
+
+    #[test]
+    fn test_object_key_that_is_not_a_name_is_quoted() {
+        let mut ws = VirtualWorkspace::new();
+        let ty = ws.ty(r#"{ ["a b"]: string, c: integer }"#);
+        let rendered = ws.humanize_type_detailed(ty.clone());
+        assert_eq!(rendered, r#"{ ["a b"]: string, c: integer }"#);
         assert_eq!(ws.ty(&rendered), ty);
     }
 
